@@ -25,6 +25,7 @@ func checkC06(c *Ctx) {
 	c.levelSplitter()
 	c.sinsertContract()
 	c.sremoveContract()
+	c.subscriberIdentityIsEquality()
 	c.matchQosMin()
 	c.grantedQosCap()
 	c.subscribeValidatesFirst()
@@ -375,15 +376,22 @@ func (c *Ctx) sremoveContract() {
 					a1, ok1 := v.Common().Args[1].(*ssa.Slice)
 					if ok0 && ok1 && a0.High != nil && a1.Low != nil {
 						if bo, ok := a1.Low.(*ssa.BinOp); ok && bo.Op.String() == "+" && bo.X == a0.High {
-							shape = "shift-out(i)"
+							shape = "shift-out(" + a0.High.Name() + ")"
 						}
 					}
 				}
 			case *ssa.Slice:
-				shape = "reslice"
+				// x = x[:len-1] takes out the LAST entry; which entry was moved over the one to be removed decides
+				// what the list looks like afterwards
+				shape = "truncate (drops the last entry, not the one found)"
 				if v.High != nil {
 					if k, ok := v.High.(*ssa.Const); ok && k.Value != nil && k.Value.ExactString() == "0" {
 						shape = "clear"
+					}
+				}
+				if shape != "clear" {
+					if mv := elementMoveBefore(st, p.Fields[0]); mv != "" {
+						shape = mv
 					}
 				}
 			}
@@ -401,12 +409,67 @@ func (c *Ctx) sremoveContract() {
 	ok := len(byBlock) > 0
 	detail := ""
 	for b, m := range byBlock {
-		if m["subs"] == "" || m["qos"] == "" || m["subs"] != m["qos"] || m["subs"] == "?" {
+		if m["subs"] == "" || m["qos"] == "" || m["subs"] != m["qos"] || m["subs"] == "?" || strings.HasPrefix(m["subs"], "truncate") {
 			ok = false
 			detail = fmt.Sprintf("block %d: subs %q vs qos %q", b.Index, m["subs"], m["qos"])
 		}
 	}
 	c.R.Check(ok, ruleT5, "sremove:parallel-lists-shrink-alike", pos, "wherever the subscriber list shrinks, the QoS list shrinks by the same operation at the same index", "the subscriber list and the QoS list are not shrunk by the same operation ("+detail+"): after an unsubscribe the remaining subscribers are reported with each other's QoS")
+}
+
+// elementMoveBefore: what the block does to the elements of the list field before the store st that shortens it by
+// one: copy(x[i:], x[i+1:]) is "shift-out(i)", x[i] = x[len-1] is "swap-out(i)"; "" when neither.
+func elementMoveBefore(st *ssa.Store, field string) string {
+	isField := func(v ssa.Value) bool {
+		p := ir.PathOf(v)
+		return len(p.Fields) >= 1 && p.Fields[0] == field
+	}
+	for _, in := range st.Block().Instrs {
+		if in == ssa.Instruction(st) {
+			break
+		}
+		switch x := in.(type) {
+		case *ssa.Call:
+			bi, ok := x.Common().Value.(*ssa.Builtin)
+			if !ok || bi.Name() != "copy" || len(x.Common().Args) != 2 {
+				continue
+			}
+			d, ok0 := x.Common().Args[0].(*ssa.Slice)
+			sr, ok1 := x.Common().Args[1].(*ssa.Slice)
+			if !ok0 || !ok1 || !isField(d.X) || !isField(sr.X) || d.Low == nil || sr.Low == nil {
+				continue
+			}
+			if bo, ok := sr.Low.(*ssa.BinOp); ok && bo.Op == token.ADD && bo.X == d.Low {
+				if k, ok := bo.Y.(*ssa.Const); ok && k.Value != nil && k.Value.ExactString() == "1" {
+					return "shift-out(" + d.Low.Name() + ")"
+				}
+			}
+		case *ssa.Store:
+			ia, ok := x.Addr.(*ssa.IndexAddr)
+			if !ok || !isField(ia.X) {
+				continue
+			}
+			u, ok := x.Val.(*ssa.UnOp)
+			if !ok {
+				continue
+			}
+			ia2, ok := u.X.(*ssa.IndexAddr)
+			if !ok || !isField(ia2.X) {
+				continue
+			}
+			// the source index is len(x)-1
+			if bo, ok := ia2.Index.(*ssa.BinOp); ok && bo.Op == token.SUB {
+				if k, ok := bo.Y.(*ssa.Const); ok && k.Value != nil && k.Value.ExactString() == "1" {
+					if call, ok := bo.X.(*ssa.Call); ok {
+						if bi, ok := call.Common().Value.(*ssa.Builtin); ok && bi.Name() == "len" {
+							return "swap-out(" + ia.Index.Name() + ")"
+						}
+					}
+				}
+			}
+		}
+	}
+	return ""
 }
 
 // subscribeValidatesFirst: P5 - QoS and nil-subscriber checks precede the lock and the insertion.
